@@ -6,4 +6,5 @@ let () =
   | _ :: "stack" :: fence :: _ -> R_stack.run (int_of_string fence)
   | _ :: "arena" :: _ -> R_arena.run ()
   | _ :: "minblock" :: _ -> R_minblock.run ()
+  | _ :: "lowlevel" :: _ -> R_lowlevel.run ()
   | _ -> prerr_endline "usage: replay <topic> [args]"; exit 2
